@@ -157,6 +157,7 @@ func (fm *FontMap) appendFootprints(footprints ...Footprint) {
 // and `systemFonts` use is then read-only
 var (
 	systemFonts         systemFontsIndex
+	systemFontsErr      error // the error of the (only) scan, returned to every caller
 	initSystemFontsOnce sync.Once
 )
 
@@ -183,24 +184,24 @@ func cacheDir(userProvided string) (string, error) {
 // at least one valid font.Face.
 // It is protected by sync.Once, and is then safe to use by multiple goroutines.
 func initSystemFonts(logger Logger, userCacheDir string) error {
-	var err error
-
 	initSystemFontsOnce.Do(func() {
 		const cacheFilePattern = "font_index_v%d.cache"
 
 		// load an existing index
-		var dir string
-		dir, err = cacheDir(userCacheDir)
+		dir, err := cacheDir(userCacheDir)
 		if err != nil {
+			systemFontsErr = err
 			return
 		}
 
 		cachePath := filepath.Join(dir, fmt.Sprintf(cacheFilePattern, cacheFormatVersion))
 
-		systemFonts, err = refreshSystemFontsIndex(logger, cachePath)
+		systemFonts, systemFontsErr = refreshSystemFontsIndex(logger, cachePath)
 	})
 
-	return err
+	// the scan is done once: its error must be seen by the callers which come after
+	// the first one (they would take an empty index for the system fonts)
+	return systemFontsErr
 }
 
 func refreshSystemFontsIndex(logger Logger, cachePath string) (systemFontsIndex, error) {
